@@ -159,6 +159,15 @@ theorem prim_tokens {ts : Syntax} {dict : Tag → Option VR} {t : Tag} {vr : VR}
   have hl : len ≠ undefinedLen := by have := h.len_lt; simp only [undefinedLen]; omega
   simp [Elem.tokens, hl, h.notSq]
 
+/-- (added with fix 457c39a of dicom-rs / `Enc.encodePrimitiveElement`) the OW/U8 re-packing arm of
+`encode_primitive_element` is inert on canonical values: under OW a canonical value is a `u16` list -/
+theorem owWords_primOk {ts : Syntax} {dict : Tag → Option VR} {t : Tag} {vr : VR} {len : Nat} {v : PValue}
+    (h : PrimOk ts dict t vr len v) : owWords vr v = v := by
+  have hf := h.fits
+  split at hf
+  · subst hf; rfl
+  · cases vr <;> cases v <;> first | rfl | (simp [valueFits] at hf) | (simp [owWords])
+
 theorem writes_prim {ts : Syntax} {dict : Tag → Option VR} {t : Tag} {vr : VR} {len : Nat} {v : PValue}
     (h : PrimOk ts dict t vr len v) (w : Writer) (hts : w.enc.ts = ts) :
     Writes w (Elem.tokens (.prim t vr len v)) (encElem ts (.prim t vr len v)) := by
@@ -168,7 +177,7 @@ theorem writes_prim {ts : Syntax} {dict : Tag → Option VR} {t : Tag} {vr : VR}
   refine ⟨⟨e', st, none, strat⟩, ?_, ?_⟩
   · simp only [Writer.writeAll, Writer.write, Writer.writeImpl]
     simp only at he
-    simp only [he]
+    simp only [Enc.encodePrimitiveElement, owWords_primOk h, he]
   · exact ⟨by simpa [encElem] using ha.1, ha.2, rfl, rfl⟩
 
 /-! ### encapsulated pixel data -/
